@@ -289,7 +289,20 @@ pub mod exp2_impl {
 impl types::Guest for G {
     type Token = MyToken;
 }
-impl types::GuestToken for MyToken {}
+/// (number of reps stored through the overridable storage hook, number released through it)
+static mut TOKEN_HOOKS: (u32, u32) = (0, 0);
+impl types::GuestToken for MyToken {
+    // the documented, overridable storage hooks: a guest that keeps its resources in an arena
+    // relies on every rep stored through the first being released through the second
+    unsafe fn resource_into_raw_(val: Option<MyToken>) -> *mut Option<MyToken> {
+        ledger::host(|| unsafe { TOKEN_HOOKS.0 += 1 });
+        Box::into_raw(Box::new(val))
+    }
+    unsafe fn resource_from_raw_(handle: *mut Option<MyToken>) -> Option<MyToken> {
+        ledger::host(|| unsafe { TOKEN_HOOKS.1 += 1 });
+        *unsafe { Box::from_raw(handle) }
+    }
+}
 pub mod exp3_impl {
     use super::*;
     pub fn make_token(n: u32) -> exp3::Token {
@@ -399,6 +412,16 @@ impl b::Guest for G {
                                 errs.push(c);
                             }
                         }
+                    }
+                }
+                // Debug-format an owned handle (directly and nested): it must stay usable afterwards
+                12 => {
+                    if !bag.is_empty() {
+                        let i = arg() as usize % bag.len();
+                        let s1 = format!("{:?}", bag[i]);
+                        let s2 = format!("{:?}", Some(&bag[i]));
+                        acc = acc.wrapping_add((s1.len() + s2.len()) as u32);
+                        acc = acc.wrapping_add(bag[i].get());
                     }
                 }
                 11 => {
@@ -987,6 +1010,7 @@ pub fn run_one(fam: &str, seed: u64, idx: u64, ch: Choices, trace: bool) -> RunR
         GADGET_DROPS = BTreeMap::new();
         GADGET_CREATED = BTreeMap::new();
         TOTAL_DROPS = 0;
+        TOKEN_HOOKS = (0, 0);
         ST = Some(St {
             resolve: &w.0,
             imports: w.1.clone(),
@@ -1350,7 +1374,7 @@ pub fn run_one(fam: &str, seed: u64, idx: u64, ch: Choices, trace: bool) -> RunR
                 let n = 1 + pick(8);
                 let mut script = vec![];
                 for _ in 0..n {
-                    let op = pick(12) as u64;
+                    let op = pick(13) as u64;
                     script.push(Val::U(op));
                     for _ in 0..3 {
                         script.push(Val::U(pick(1000) as u64));
@@ -1408,6 +1432,10 @@ pub fn run_one(fam: &str, seed: u64, idx: u64, ch: Choices, trace: bool) -> RunR
             violate("H-DROP", "end", format!("the Rust value of exported resource #{serial} (id {id}) was destroyed {n} times (expected exactly once)"));
         }
     }
+    let hooks = unsafe { TOKEN_HOOKS };
+    if hooks.0 != hooks.1 {
+        violate("H-DROP", "resource hooks", format!("{} token reps were stored through the guest's `resource_into_raw_` hook but {} were released through its `resource_from_raw_` hook", hooks.0, hooks.1));
+    }
     if with(|h| h.error_contexts) != 0 {
         violate("H-HANDLE", "end", format!("{} error-context handles are still in the guest's table after everything was released (leak)", with(|h| h.error_contexts)));
     }
@@ -1440,7 +1468,7 @@ thread_local! { static STASHED: std::cell::RefCell<Vec<u32>> = const { std::cell
 fn remap_script(raw: Vec<Val>) -> Vec<Val> {
     let need = |op: u64| -> usize {
         match op {
-            0 | 1 | 2 | 6 | 7 | 11 => 1,
+            0 | 1 | 2 | 6 | 7 | 11 | 12 => 1,
             3 | 10 => 2,
             4 | 5 => 3,
             _ => 0,
